@@ -11,6 +11,7 @@
             and the monitor [C09_ok]. *)
 From MWF Require Export Base.Str Expand.PyStr.
 From MWF Require Import Base.Util.
+From MWF Require Expand.SafePath.
 From Coq Require Import List NArith Bool Arith.
 Import ListNotations.
 
@@ -530,11 +531,10 @@ Definition SOURCE : str := s "_source".
 Definition ws_text (st : step) : str := run_text "cmd" st ++ SPACE :: run_text "restart" st.
 
 (** ** Paths: [utils.make_safe_path] *)
-Definition safe_alphabet : str :=
-  s "-_.() abcdefghijklmnopqrstuvwxyzABCDEFGHIJKLMNOPQRSTUVWXYZ0123456789".
-Definition safe_comp (x : str) : str :=
-  map (fun c => if N.eqb c SPACE then USCORE else c)
-      (filter (fun c => existsb (N.eqb c) safe_alphabet) x).
+(** one path component, as [make_safe_path] writes it: the SafePath model's
+    [sanitize] (alphabet and replace rules regenerated from utils.py into
+    Gen/SafePathData.v on every run) *)
+Definition safe_comp (x : str) : str := MWF.Expand.SafePath.sanitize x.
 (** [os.path.join(a, b)] for a component [b] that does not start with "/" *)
 Definition pjoin (a b : str) : str :=
   match a with
@@ -898,11 +898,24 @@ Definition sig_K4a (c : case) : bool :=
 (** Signature of known finding K4b: the input is outside the hygiene
     hypothesis (token text arises from substituted values). *)
 Definition sig_K4b (c : case) : bool := negb (hyg c).
+(** Signature of known finding K4c: a step whose name has a character outside
+    the WSREGEX class (blank, quote, "@", "#", ...) and whose workspace token
+    occurs in a step's cmd / restart: the regex never recognises that token. *)
+Definition sig_K4c (c : case) : bool :=
+  existsb (fun st => negb (forallb wsclassb (s_name st)) &&
+                     existsb (fun st' => occursb (ws_tok (s_name st)) (ws_text st')) (steps_e Model c))
+          (c_steps c).
 
 (** ** Validity of a case (the domain on which the model claims to describe
     the implementation; checked by the harness for every generated case) *)
+(** Characters of step names: words, ".", "-", the other characters of the
+    WSREGEX class that are neither token syntax ("$", "(", ")"), nor the funnel
+    mark "*", nor the path separator -- [make_safe_path] deletes them from
+    directory names --, and a few characters OUTSIDE the class (blank, "'", "@",
+    "#": see [sig_K4c]). *)
+Definition step_name_extra : str := s ".-:+,=~!%^&|{}[];<>?` '@#".
 Definition step_name_charb (c : N) : bool :=
-  isword c || N.eqb c DOT || N.eqb c 45%N.
+  isword c || existsb (N.eqb c) step_name_extra.
 Definition valid_step (names : list str) (st : step) : bool :=
   negb (str_eqb (s_name st) []) && forallb step_name_charb (s_name st) &&
   match dict_get (s "cmd") (s_run st), dict_get (s "restart") (s_run st) with
